@@ -613,6 +613,39 @@ func eval1(c Case) (v evid.Verdict, trivial bool, outcome string) {
 			if ok, _ := l2.verify(vk, vu); ok {
 				return evid.Fail(sig, "Verify = true on a received token although %s differs from what its checksum covers (etype %d usage %d flags %#x seq %d payload %x; a=%d other=%q)", c.Variant[4:], c.EType, c.Usage, c.Flags, c.Seq, payload, c.A, c.Other)
 			}
+			if c.Variant == "chg-key" && vk.KeyType == c.EType {
+				// (3) the caller's key buffer itself is overwritten with the other key (a context that re-keys in place): first a
+				// verification under the original key, which succeeds, then the buffer changes and the verdict must follow it
+				if ok, err := l2.verify(ek, c.Usage); !ok {
+					return evid.Fail("reject-genuine:"+c.Kind+":verify", "Verify of a conformant token %x (etype %d usage %d) = false: %v", refTok, c.EType, c.Usage, err)
+				}
+				copy(ek.KeyValue, vk.KeyValue)
+				if ok, _ := l2.verify(ek, c.Usage); ok {
+					return evid.Fail(sig+"-inplace", "Verify = true on a received token after the key buffer used for an earlier (successful) verification was overwritten with another key (etype %d usage %d; other key %q)", c.EType, c.Usage, c.Other)
+				}
+				// and a token built under the key the buffer holds now carries that key's checksum
+				var wantCk []byte
+				var err error
+				if c.Kind == gsstok.KindMIC {
+					wantCk, err = gsstok.MICChecksum(c.EType, vk.KeyValue, c.Usage, c.Flags, c.Seq, payload)
+				} else {
+					wantCk, err = gsstok.WrapChecksum(c.EType, vk.KeyValue, c.Usage, c.Flags, c.Seq, payload)
+				}
+				if err != nil {
+					return evid.Fail("harness", "reference checksum: %v", err)
+				}
+				l3 := newLib(c.Kind, c.Flags, c.Seq, gclone(payload), uint16(ckLen))
+				if err := l3.setCksum(ek, c.Usage); err != nil {
+					return evid.Fail("build:"+c.Kind+":setchecksum-error", "SetCheckSum(etype %d, usage %d): %v", c.EType, c.Usage, err)
+				}
+				got := l3.w.CheckSum
+				if c.Kind == gsstok.KindMIC {
+					got = l3.m.Checksum
+				}
+				if !bytes.Equal(got, wantCk) {
+					return evid.Fail("value:"+c.Kind+":key-inplace", "after the key buffer was overwritten with another key, SetCheckSum gives %x, the RFC 4121 checksum under the key now in the buffer is %x", got, wantCk)
+				}
+			}
 			outcome = "rejected-by-verify"
 			return evid.Pass()
 		}
